@@ -66,6 +66,13 @@ def run(tier):
         if fdmode:
             lines.append("closelow %d" % fdmode)
         lines += ["ctx 0", "open 0 %s rwt" % out, "init_write 0 0"] + writegen.cfg_lines(cfg, 0, wd, cid)
+        if i % 3 == 1:
+            # option calls that are refused (minimum above the maximum, maximum below the minimum, a negative minimum), the
+            # error cleared, and the writer used on: a refused call must leave nothing behind
+            mx = cfg.get("max", 10485760); mn = cfg.get("min", 1)
+            rej = [["ioption 0 %d %d" % (writegen.OPT["min"], mx + 1)], ["ioption 0 %d %d" % (writegen.OPT["max"], mn - 1)] if mn > 1 else ["ioption 0 %d -1" % writegen.OPT["min"]],
+                   ["ioption 0 %d -1" % writegen.OPT["min"], "clear_error 0", "ioption 0 %d %d" % (writegen.OPT["min"], mx + 7)]][(i // 3) % 3]
+            lines += rej + ["clear_error 0"]
         pos = 0; cuts = []
         for k in seg:
             lines.append("write 0 file:%s:%d:%d" % (src, pos, k)); pos += k
